@@ -1,6 +1,6 @@
 // ---- prelude/c15.rs: the kernel's fs.protected_symlinks rule (oracle: fs/namei.c) -----------
 pub uninterp spec fn sysctl_spec() -> u32;
-pub uninterp spec fn euid_spec() -> u32;
+//@include prelude/creds.rs
 pub uninterp spec fn stat_fails(fd: int) -> bool;
 pub open spec fn kernel_refuses_link(sysctl: u32, fsuid: u32, link_uid: u32, dir_mode: u32, dir_uid: u32) -> bool {
     sysctl != 0
